@@ -13,8 +13,9 @@
   — which needs the client to read it —, with the client gone, or aborted through the server
   context; the receive context plays no role there) → idle again … → leaving (deferred terminate
   hook) → closing (`stream.Close`, `wg.Done`) → its reader / writer still winding down → ended.
-  `Params.closeWaits = true` is the PROPOSED repair of `conn.Close` (wait for reader and writer before
-  returning, hence before `wg.Done`): closing → (reader / writer ended) → finishing → (`wg.Done`) → ended.
+  hook) → closing (`stream.Close`, which since aa935a6 waits for reader and writer) → finishing
+  (`wg.Done`) → ended. `Params.closeWaits = false` is the code before aa935a6: closing (`stream.Close`
+  does not wait, `wg.Done`) → winding (reader / writer still on their way out) → ended.
   What the abstraction relies on (`Kmip.C08`): once the owner has closed the stream, reader and
   writer end by themselves; a step of one connection touches no other connection.
 
@@ -39,16 +40,18 @@ open Kmip.Lts
 
 structure Params where
   addUnderLock : Bool
-  /-- `conn.Close` waits for the reader and writer goroutines (NOT the current code: the TODO of
-      conn.go; see `Kmip.C16.C16_full_false`). -/
-  closeWaits : Bool := false
+  /-- `conn.Close` waits for the reader and writer goroutines before returning, hence before the
+      owner's `wg.Done` (since aa935a6). -/
+  closeWaits : Bool
   deriving Repr, DecidableEq
 
-def current : Params := { addUnderLock := true }
-/-- before 267c9a5. -/
-def oldAddAfterWait : Params := { addUnderLock := false }
-/-- the proposed repair: `conn.Close` waits for readloop and writeloop. -/
-def fixedCloseWaits : Params := { addUnderLock := true, closeWaits := true }
+/-- the code at /repo HEAD. -/
+def current : Params := { addUnderLock := true, closeWaits := true }
+/-- before aa935a6: `conn.Close` did not wait for readloop and writeloop ("TODO: Wait exit of
+    goroutines"). -/
+def beforeCloseWaits : Params := { addUnderLock := true, closeWaits := false }
+/-- before 267c9a5 (and aa935a6). -/
+def oldAddAfterWait : Params := { addUnderLock := false, closeWaits := false }
 
 /-- accept loop (`Serve`). -/
 inductive APc where
@@ -430,8 +433,8 @@ def wgExpected (x : State) : Nat :=
 def graceBad (x : State) : Bool :=
   x.srvCtx && !(x.tm.is .fired) && (x.c0.cancellable || x.c1.cancellable)
 
-/-- (closeWaits only) a reader / writer goroutine of a connection is alive although `Shutdown` has
-    returned. -/
+/-- (closeWaits, i.e. the current code) a goroutine of a connection — owner, reader or writer — is
+    alive although `Shutdown` has returned. -/
 def rwLateBad (p : Params) (x : State) : Bool :=
   p.closeWaits && returned x && !(x.c0.quiet && x.c1.quiet)
 
